@@ -23,7 +23,7 @@ func init() {
 		return CheckSpec{Level: "model_checking", Rule: searchRule, Assumptions: append([]string{
 			"downtime handling is driven through the keeper's HandleSlashPacket (the step after packet validation); the full packet path is covered by the C08 scenario",
 		}, commonAssumptions...), Budget: budget,
-			Units: []Unit{Search{Sc: Infraction{Variant: "base"}, Depth: depth}, Search{Sc: Infraction{Variant: "bulk"}, Depth: 3}},
+			Units: []Unit{Search{Sc: Infraction{Variant: "base"}, Depth: depth}, Search{Sc: Infraction{Variant: "staggered"}, Depth: depth}, Search{Sc: Infraction{Variant: "bulk"}, Depth: 3}},
 			MustSee: []string{"update:prelaunch", "update:cancel", "update:replace-pending", "update:new-pending", "pending-applied", "pending-not-due",
 				"deleted-with-pending", "more-than-200-due", "downtime-handled:fraction=0.02", "downtime-handled:fraction=0.03"}}
 	})
